@@ -100,14 +100,16 @@ Fixpoint read_string (fuel : nat) (s : list Z) : res (list Z * list Z) :=
       end
   end.
 
-(** json_read_number (json.c:37-78), integer part with the exactness guard of the repair *)
-Fixpoint read_digits (s : list Z) (ires : Z) (inexact : bool) : Z * bool * list Z :=
+(** json_read_number (json.c:37-78), integer part with the exactness guard of the repairs: digits are accumulated exactly while
+    the result stays <= lim, where lim = SEXP_MAX_FIXNUM for a positive and SEXP_MAX_FIXNUM + 1 for a negative number
+    (C19-json-read-min-fixnum: -2^62 is a fixnum too) *)
+Fixpoint read_digits (lim : Z) (s : list Z) (ires : Z) (inexact : bool) : Z * bool * list Z :=
   match s with
   | ch :: r =>
       if isdigit ch then
         let d := ch - 48 in
-        if ires >? (MAXFIX - d) / 10 then read_digits r ires true
-        else read_digits r (ires * 10 + d) inexact
+        if ires >? (lim - d) / 10 then read_digits lim r ires true
+        else read_digits lim r (ires * 10 + d) inexact
       else (ires, inexact, s)
   | [] => (ires, inexact, [])
   end.
@@ -118,21 +120,31 @@ Fixpoint skip_digits (s : list Z) : list Z :=
   | [] => []
   end.
 
+(** optional exponent part: e|E, optional sign, digits (json.c json_read_number after C19-json-read-exponent: the exponent is
+    looked for after the fraction too, and the upper-case E that json_write_flonum's %G emits is accepted) *)
+Definition skip_exp (s : list Z) : list Z :=
+  match s with
+  | c :: r =>
+      if (c =? 101) || (c =? 69) then
+        skip_digits (match r with
+                     | c2 :: t => if (c2 =? 43) || (c2 =? 45) then t else r
+                     | [] => r
+                     end)
+      else s
+  | [] => s
+  end.
+
 Definition read_number (s : list Z) : json * list Z :=
   let '(sign, s1) := match s with
                      | c :: r => if c =? 43 then (1, r) else if c =? 45 then (-1, r) else (1, s)
                      | [] => (1, s)
                      end in
-  let '(ires, inexact, s2) := read_digits s1 0 false in
+  let '(ires, inexact, s2) := read_digits (MAXFIX + (if sign =? 1 then 0 else 1)) s1 0 false in
   let plain := (if inexact then JFloat else JInt (sign * ires), s2) in
   match s2 with
   | c :: r =>
-      if c =? 46 then (JFloat, skip_digits r)                           (* '.' fraction; a following e is NOT consumed *)
-      else if c =? 101 then                                             (* 'e' exponent *)
-        (JFloat, skip_digits (match r with
-                              | c2 :: t => if (c2 =? 43) || (c2 =? 45) then t else r
-                              | [] => r
-                              end))
+      if c =? 46 then (JFloat, skip_exp (skip_digits r))                (* '.' fraction, then an optional exponent *)
+      else if (c =? 101) || (c =? 69) then (JFloat, skip_exp s2)        (* exponent directly after the integer part *)
       else plain
   | [] => plain
   end.
